@@ -17,6 +17,7 @@
                         authority's meta and renaming it (pc StMetaRename).  The three known findings S13 / S13b /
                         S13c are exactly the schedules excluded by it (c18_witnesses_are_overlaps). *)
 From RipV Require Import Base.Prelude Model.Authority Proofs.AuthorityInv Proofs.AuthorityLive Proofs.AuthorityTake Proofs.AuthorityProofs.
+From RipV Require Import Proofs.AuthorityFair.
 From RipV Require Import Model.AuthorityGrace Proofs.AuthorityGraceProofs.
 
 (* ---- exclusive create: no dead leftovers (no files at all), ANY number of contenders, ANY crash-free schedule *)
@@ -214,6 +215,30 @@ Theorem c18_corrupt_cleanup_needs_grace :
     holders (run false empty_init sched) = [1; 2] /\ holders (run true empty_init sched) = [1].
 Proof. exact corrupt_cleanup_needs_grace. Qed.
 Print Assumptions c18_corrupt_cleanup_needs_grace.
+
+(* ==== recovery with SEVERAL contenders, arbitrary interleaving ======================================================
+   servers ps          — ps is a non-empty list of fresh server loops (any number, any pids);
+   dead_leftover ps l m — every pid named by the leftover lock.json / meta.json is dead (absent, half-written, record);
+   calm es             — the schedule es is crash-free, the endpoint of the dead authority is unreachable (ping bit 0) and
+                         no contender's 2 s deadline has passed (bit 2 = 0); the 1 s timer bit is free.
+   At EVERY point of EVERY such schedule — races S13 / S13b / S13c included — either an authority has already emerged
+   (some prefix of the schedule has a holder), or some contender, given at most 20 uninterrupted steps of its own (timer
+   expired), becomes the authority: no reachable state is a wedge.  A fair scheduler that eventually leaves some contender
+   alone for 20 steps therefore recovers the store.  (What is NOT proved: termination under weak fairness alone, i.e. a
+   bound on the number of rounds of an arbitrary fair interleaving.) *)
+Theorem c18_recovers_from_every_reachable_state :
+  forall (l : lockf) (m : metaf) (ps : list proc) (es : list event),
+  servers ps -> dead_leftover ps l m -> calm es = true ->
+  (exists es1 es2 : list event, es = es1 ++ es2 /\ holders (run true (init l m ps) es1) <> [])
+  \/ (exists (i n : nat), (n <= 20)%nat /\ holders (run true (init l m ps) (es ++ repeat (Step i 2) n)) <> []).
+Proof. exact recovers_from_every_reachable_state. Qed.
+Print Assumptions c18_recovers_from_every_reachable_state.
+
+Example c18_recovers_fair_example :
+  servers fair_two /\ dead_leftover fair_two (LRec 900) MAbsent /\ calm mid_race = true
+  /\ holders (run true (init (LRec 900) MAbsent fair_two) mid_race) = []
+  /\ holders (run true (init (LRec 900) MAbsent fair_two) (mid_race ++ repeat (Step 0%nat 2) 4)) = [1].
+Proof. exact fair_example. Qed.
 
 (* ==== the corrupt-lock grace timer (Model/AuthorityGrace.v) ===========================================================
    Above, "lock json invalid for > 1 s" is an adversarial answer constrained by `assume_grace`.  Here is where the answer
